@@ -164,7 +164,16 @@ fn gen_packet(rng: &mut Rng, cum: u32, cookies: &[Vec<u8>], req_sn: &mut u32, pe
     let mut next = cum;
     for _ in 0..rng.range(1, 3) {
         match rng.below(24) {
-            0..=9 => { let t = if rng.chance(2, 3) { next = next.wrapping_add(1); next } else { pick_tsn(rng, cum) }; gen_data_chunk(rng, &mut p, t); }
+            0..=8 => { let t = if rng.chance(2, 3) { next = next.wrapping_add(1); next } else { pick_tsn(rng, cum) }; gen_data_chunk(rng, &mut p, t); }
+            9 => { // a DCEP OPEN split into 2..3 fragments on consecutive TSNs (B … E), sometimes with a piece missing / repeated
+                let open = dcep_open(rng); let sid = rng.below(4) as u16; let k = rng.range(2, 3) as usize;
+                let cuts: Vec<usize> = (0..=k).map(|i| open.len() * i / k).collect();
+                for i in 0..k {
+                    if rng.chance(1, 8) { continue; }
+                    next = next.wrapping_add(1);
+                    let fl = (if i == 0 { 2 } else { 0 }) | (if i == k - 1 { 1 } else { 0 }) | (if rng.chance(1, 2) { 4 } else { 0 });
+                    chunk(&mut p, 0, fl, &data_value(next, sid, 0, 50, &open[cuts[i]..cuts[i + 1]]));
+                } }
             10 => { // out-of-order pair inside one packet, then the gap filler
                 gen_data_chunk(rng, &mut p, cum.wrapping_add(2)); gen_data_chunk(rng, &mut p, cum.wrapping_add(3)); gen_data_chunk(rng, &mut p, cum.wrapping_add(1)); }
             11 | 12 => { let mut v = (rng.next() as u32).to_be_bytes().to_vec(); v.extend_from_slice(&(*rng.pick(&[0u32, 1500, 65536, 0xFFFF_FFFF])).to_be_bytes());
@@ -276,7 +285,8 @@ pub fn run_session(run: &mut Run, rng: &mut Rng, is_client: bool, closed0: bool,
 /// oracle-only stream `sctpflood`: memory an established association RETAINS after a flood from its (DTLS-authenticated) peer.
 /// kind 0: DATA with a TSN gap that is never filled (`received_queue`), `size`-byte payloads; 1: in-order first/middle fragments of a
 /// message that never ends (`reassembly_buffer`); 2: DCEP OPEN on a new stream each time (`data_channels`, the channels are kept
-/// alive as the PeerConnection does); 3: ordered messages with SSN ahead of the expected one (`InboundStream.pending`).
+/// alive as the PeerConnection does); 3: ordered messages with SSN ahead of the expected one (`InboundStream.pending`);
+/// 4: a fragmented DCEP message that never ends (`dcep_reassembly`).
 /// Oracle: retained ≤ 16·bytes received + 64 KiB, and every packet handled within the per-call deadline.
 pub fn run_flood(run: &mut Run, kind: u8, count: u32, size: usize) {
     let case = format!("sctpflood {kind} {count} {size}");
@@ -301,6 +311,7 @@ pub fn run_flood(run: &mut Run, kind: u8, count: u32, size: usize) {
                 0 => chunk(&mut p, 0, 3, &data_value(102 + 2 + k, 0, 0, 53, &body)),
                 1 => chunk(&mut p, 0, if k == 0 { 2 } else { 0 }, &data_value(102 + k, 0, 0, 53, &body)),
                 2 => { let mut open = vec![3u8, 0, 0, 0, 0, 0, 0, 0, 0, 1, 0, 0]; open.push(b'l'); chunk(&mut p, 0, 3, &data_value(102 + k, ((k + 2) % 65536) as u16, 0, 50, &open)) }
+                4 => chunk(&mut p, 0, if k == 0 { 6 } else { 4 }, &data_value(102 + k, 0, 0, 50, &body)),
                 _ => chunk(&mut p, 0, 3, &data_value(102 + k, 1, (k + 1) as u16, 53, &body)),
             }
             crc_fix(&mut p);
@@ -322,7 +333,7 @@ pub fn run_flood(run: &mut Run, kind: u8, count: u32, size: usize) {
     run.count_n(&format!("sctpflood:queue_len:{kind}:{size}"), snap.received_queue.len() as u64);
     run.count(&format!("sctpflood:connected:{connected}"));
     if retained > 16 * bytes_in + 65536 {
-        run.fail(&format!("retain:SctpInner::handle_packet:{}", ["tsn-gap", "endless-fragments", "dcep-open-per-stream", "ssn-gap"][kind.min(3) as usize]), &case,
+        run.fail(&format!("retain:SctpInner::handle_packet:{}", ["tsn-gap", "endless-fragments", "dcep-open-per-stream", "ssn-gap", "endless-dcep-fragments"][if kind == 4 { 4 } else { kind.min(3) as usize }]), &case,
             &format!("{retained} bytes retained after {count} packets ({bytes_in} bytes received)"));
     }
     if slowest > std::time::Duration::from_secs(2) { run.fail("hang:SctpInner::handle_packet(flood)", &case, &format!("slowest packet took {slowest:?}")); }
@@ -332,9 +343,9 @@ fn r_is_ok(fails: &[crate::OracleFail], case: &str) -> bool { !fails.iter().any(
 
 pub fn special(run: &mut Run, rng: &mut Rng, thorough: bool) {
     let k = if thorough { 30_000 } else { 3_000 };
-    for (kind, size) in [(0u8, 1usize), (0, 1100), (1, 1), (1, 1100), (2, 0), (3, 1), (3, 1100)] { run_flood(run, kind, k, size); }
+    for (kind, size) in [(0u8, 1usize), (0, 1100), (1, 1), (1, 1100), (2, 0), (3, 1), (3, 1100), (4, 1), (4, 1100)] { run_flood(run, kind, k, size); }
     let n = if thorough { 30_000 } else { 1_500 };
-    for i in 0..n { run_session(run, rng, i % 5 == 4, i % 7 == 6, None, true); }
+    for i in 0..n { run_session(run, rng, i % 5 == 4, false, None, true); }   // (`new_verif_link` now always hands out a New association)
 }
 
 pub fn replay_special(run: &mut Run, stream: &str, a: &[&str]) -> bool {
